@@ -273,6 +273,8 @@ def _decorate_namespace_property(
         # A base which has the function, but specifies no preconditions for it, accepts all possible input.
         some_base_accepts_all = False
 
+        is_inherited_from_base = False
+
         for base in bases:
             if hasattr(base, key):
                 base_property = getattr(base, key)
@@ -296,6 +298,13 @@ def _decorate_namespace_property(
                 if base_func is None:
                     continue
 
+                if base_func is func:
+                    # The accessor is not overridden, but re-used from the base as-is (*e.g.*, only the setter was
+                    # re-defined with ``@Base.some_property.setter``). It keeps the contracts of the base. It must not
+                    # be collapsed with itself, as that would change the contracts of the base as well.
+                    is_inherited_from_base = True
+                    break
+
                 bases_have_func = True
 
                 # Check if there is a checker function in the base class
@@ -313,6 +322,9 @@ def _decorate_namespace_property(
                         some_base_accepts_all = True
                 else:
                     some_base_accepts_all = True
+
+        if is_inherited_from_base:
+            continue
 
         # Add preconditions and postconditions of the function
         preconditions = []  # type: List[List[Contract]]
